@@ -100,6 +100,34 @@ def run(tier):
         cheats.append({"kind": "presigncheat", "proto": "cmp-presign", "n": 3, "t": 2, "byz": byz, "variant": v, "rule": rule,
                        "stage": c["stage"], "coded": c["coded"], "sched": vlib.seed() * 7 + len(cheats)})
     rep.notes.append("presign deviation catalogue from PresignAlg.tla: %d cases, %d run on the real protocol" % (len(catalogue), len(cheats)))
+    # ---- 3c. FrostAlg.tla: the algebra of FROST signing over GF(7) for all binding factors / challenges; a signer that answers
+    #          inconsistently with what it published is singled out by the per-share check of every honest signer
+    fkinds = {"z", "nonce", "share", "noneg"}
+    fconf = [(True, {1, 2, 3}, 1, "PolysT1"), (False, {1, 2, 3}, 1, "PolysT1")]
+    if not quick:
+        fconf += [(True, {1, 2, 3, 4}, 2, "PolysT2"), (False, {1, 2, 4}, 1, "PolysT1")]
+    fcat = []
+    for tap, xs, t, polys in fconf:
+        consts = {"Q": 7, "XS": xs, "T": t, "Taproot": tap, "Kinds": fkinds, "Polys": "<- " + polys,
+                  "DVals": {1, 4}, "EVals": {2, 5}, "RhoVals": {1, 3}, "CVals": {1, 6}, "Offs": {1, 5}}
+        r = vlib.tlc(wd, "FrostAlg", vlib.cfg(consts, init="Init", next_="Next",
+                                              invariants=["HonestCompletes", "OutputValid", "Detected", "BlameExact", "BlameComplete", "Harmless"]), timeout=3000)
+        vlib.tlc_must_pass(r, "FrostAlg.tla taproot=%s n=%d t=%d" % (tap, len(xs), t))
+        states += r["distinct"]; trans += r["generated"]
+        for c in (vlib.printed(r["out"], "CAT") or [[]])[0]:
+            if c not in fcat:
+                fcat.append(c)
+    rep.notes.append("FrostAlg.tla (GF(7), every signer subset above the threshold, plain and Taproot): an effective deviation of one signer is caught by every honest signer's per-share check, which names exactly that signer; ineffective ones are harmless")
+    if not fcat:
+        raise vlib.Inconclusive("FrostAlg.tla did not emit its deviation catalogue")
+    for c in sorted(fcat, key=lambda c: (c["rule"], c["taproot"])):
+        if c["rule"] == "noneg":
+            continue   # model only: the negation happens inside the real Finalize, there is no seam to leave it out
+        for k, b in enumerate(("a", "b", "c")):
+            if quick and (k + vlib.seed() + len(cheats)) % 3:
+                continue
+            cheats.append({"kind": "frostcheat", "proto": "taproot-sign" if c["taproot"] else "frost-sign", "n": 3, "t": 1, "byz": b, "rule": c["rule"],
+                           "sched": vlib.seed() * 7 + len(cheats)})
     # state-level dealers and committers (see c03.py): whoever ends with an error must name the deviating party, never
     # itself or another honest party
     for i, (pr, b, a) in enumerate((pr, b, a) for pr in ("frost-keygen", "frost-refresh", "cmp-keygen", "cmp-refresh") for b in ("a", "b", "c")
